@@ -15,7 +15,7 @@ CLAIMED = {
          "noise is generated under the side condition and re-checked at run time"),
  "C14": ("exploration", "LINK", "6", "twin simulation: at every boundary event a freshly constructed decoder receives the same continuation; step-by-step equality; plus concatenation split on the batch function",
          "metamorphic; independent oracles in C02/C08/C17"),
- "C15": ("exploration", "LINK", "6", "replica agreement: six receivers x two buffer kinds tap the same faulty link; logs must agree modulo the documented end-of-input representation",
+ "C15": ("exploration", "LINK", "6", "replica agreement: six receivers x two buffer kinds (plus a filtered-iterator source, a reused push decoder and an io::Read interrupted between bytes) tap the same faulty link; logs must agree modulo the documented end-of-input representation",
          "metamorphic; independent oracles in C02/C08/C17"),
  "C16": ("exploration", "LINK", "6", "capacity exhaustion simulation: every ladder capacity 0..|m|+1 for each payload, three front-end families, default 8 KiB buffer; exact-fit delivery, OOM below, fresh-twin and next-frame delivery after OOM",
          "capacities come from a compiled ladder; payload lengths are chosen on it"),
@@ -29,9 +29,9 @@ CLAIMED = {
          "requests >= 1 GiB are served from lazily committed mmap so that they are measured instead of killing the process"),
  "C09": ("exploration", "FILE", "6", "parser-pair agreement on every valid and Byzantine payload: same file / same error variant; event protocol Start(n) Entry^n End checked on the recorded event history",
          "metamorphic; C04 carries the independent oracle"),
- "C13": ("exploration", "FILE", "6", "bounded-liveness check of the streaming parser after faults in the middle of messages: at most |x|+1 items, at most one Err, then None on every further poll",
+ "C13": ("exploration", "FILE", "6", "bounded-liveness check of the streaming parser after faults in the middle of messages: at most |x|+1 items, at most one Err, then None on every further poll; directed corpus incl. messages beyond 2^16 bytes and elements that end exactly 2^8 / 2^16 bytes behind an earlier boundary",
          "the run is cut at the budget, so non-termination is a finding, not a hang"),
- "C10": ("exploration", "E2E", "6", "end-to-end simulation meter -> real encoder -> noisy link -> source -> SmlReader -> app choosing target type and read/next per call; refinement against the transmitted files and against hand composition Decoder+parser",
+ "C10": ("exploration", "E2E", "6", "end-to-end simulation meter -> real encoder -> noisy link -> source -> SmlReader -> app choosing target type and read/next per call; refinement against the transmitted files (also with a static buffer too small for some of them: the files that fit are still yielded) and against hand composition Decoder+parser",
          "expected files come from the reference SML reader applied to the generated wire bytes (self-checked against the abstract model)"),
  "C11": ("fault_enumeration", "E2E", "6", "source-fault simulation on io::Read and embedded-hal sources: directed enumeration of every position x fault kind (single) and all position pairs (double) on three base streams, then seeded multi-fault vectors; expected history assembled from fault-free sub-runs + byte ledger",
          "Interrupted transparency is read_exact's documented behaviour; EOF is modelled as sticky at the end and as a transient fault inside the stream"),
